@@ -54,7 +54,7 @@ func (k ratioCase) input() []byte {
 }
 
 func checkC17(c *ev.Ctx) {
-	c.SetRule("three input families with the bounds of the property statement (allowance A = 128 + 64*blocks): runs of one byte value (n from 600 up; bound n/500 + A), X||X with uniformly random X and |X| <= DictCap incl. |X| = DictCap exactly (bound 1.15*|X| + A), uniformly random data with DictCap >= 64 KiB and no Flush (bound n + n/500 + A); xz.Writer and lzma.Writer2, both matchers, varied lc/lp/pb, BufSize, BlockSize, DictCap. distinct non-trivial = distinct (family | writer | matcher | dict class | length class | bufsize | blocksize class | lc lp pb)")
+	c.SetRule("three input families with the bounds of the property statement (allowance A = 128 + 64*blocks): runs of one byte value (n from 600 up; bound n/500 + A), X||X with uniformly random X and |X| <= DictCap incl. |X| = DictCap exactly (bound 1.15*|X| + A), uniformly random data with DictCap >= 64 KiB and no Flush (bound n + n/500 + A); xz.Writer, lzma.Writer2 and (runs and X||X) the classic lzma.Writer with capacities off the 2^n grid, both matchers, varied lc/lp/pb, BufSize, BlockSize, DictCap. distinct non-trivial = distinct (family | writer | matcher | dict class | length class | bufsize | blocksize class | lc lp pb)")
 	c.Assume("the number of blocks is taken from the independent parser of the emitted stream (1 for LZMA2 streams)")
 	r := prng.New(c.Seed, 17)
 	var cases []ratioCase
@@ -117,6 +117,25 @@ func checkC17(c *ev.Ctx) {
 			k.BlockSize = int64(r.Pick(20000, 65536, 100000, 300000))
 		}
 		cases = append(cases, k)
+		if i%4 == 1 && k.Kind != "random" {
+			// the same case for the classic .lzma writer (the first two bounds hold "with every
+			// supported match finder", whatever the container), with dictionary capacities off the
+			// 2^n / 3*2^n grid as well and |X| equal to or just below the capacity
+			rr := prng.New(c.Seed, 171, uint64(i))
+			k.ID += "-lzma"
+			k.Writer = "lzma"
+			k.DictCap = rr.Pick(k.DictCap, 5000, 100000, 1<<20-1, 1<<20+1<<18, 70001)
+			if k.Kind == "xx" {
+				k.N = rr.Pick(k.DictCap, k.DictCap-1, k.DictCap-k.DictCap/10, k.N)
+				if k.N > k.DictCap {
+					k.N = k.DictCap
+				}
+				if k.Matcher == 1 && k.N > 300000 {
+					k.N = 300000
+				}
+			}
+			cases = append(cases, k)
+		}
 	}
 	// amounts beyond a few MiB: what a writer learns or counts over many chunks (heuristics
 	// for incompressible data, statistics, counters) must not spoil a later far repetition
@@ -172,6 +191,19 @@ func checkC17(c *ev.Ctx) {
 					}
 				}
 				w, err := cfg.NewWriter(sink)
+				if err != nil {
+					werr = err
+					return
+				}
+				if _, werr = w.Write(in); werr != nil {
+					return
+				}
+				werr = w.Close()
+			} else if k.Writer == "lzma" {
+				if k.LC+k.LP > 4 {
+					props = &lzma.Properties{LC: 3, LP: 0, PB: k.PB}
+				}
+				w, err := lzma.WriterConfig{Properties: props, DictCap: k.DictCap, BufSize: k.BufSize, Matcher: lzma.MatchAlgorithm(k.Matcher), EOSMarker: k.Seed%2 == 0, SizeInHeader: k.Seed%2 == 1, Size: int64(len(in))}.NewWriter(sink)
 				if err != nil {
 					werr = err
 					return
